@@ -39,9 +39,9 @@ PROP = 'C18'
 LEVEL = 'fault_enumeration'
 HERE = os.path.dirname(os.path.abspath(__file__))
 TIERS = {
-    'quick': {'runs': None, 'draws': 3, 'chains': 1500, 'block': 150,
+    'quick': {'runs': None, 'draws': 6, 'chains': 1500, 'block': 150,
               'run_timeout': 120, 'wall_cap': 900, 'det_sample': 4},
-    'thorough': {'runs': None, 'draws': 24, 'chains': 40000, 'block': 1000,
+    'thorough': {'runs': None, 'draws': 48, 'chains': 40000, 'block': 1000,
                  'run_timeout': 120, 'wall_cap': 7200, 'det_sample': 8},
 }
 RULE = ('the rejection lattice state x row groups x mode x kind x column '
@@ -122,12 +122,21 @@ def all_cells():
                 for c in range(3):
                     add(state=state, mode=mode, kind=kind,
                         pos='%s-col' % POSNAME[c], col=c)
+                    if mode != 'wrg-iter':
+                        # the same refusal for a frame without rows
+                        add(state=state, mode=mode, kind=kind,
+                            pos='%s-col/empty-frame' % POSNAME[c], col=c,
+                            empty=True)
             if mode == 'append':
                 add(state=state, mode=mode, kind='file-scheme-differs',
                     pos=None)
+                add(state=state, mode=mode, kind='file-scheme-differs',
+                    pos='empty-frame', empty=True)
                 if state != 'simple':
                     add(state=state, mode=mode, kind='partitioning-differs',
                         pos='extra-column')
+                    add(state=state, mode=mode, kind='partitioning-differs',
+                        pos='extra-column/empty-frame', empty=True)
                     if state == 'hivep':
                         add(state=state, mode=mode,
                             kind='partitioning-differs', pos='no-column')
@@ -171,7 +180,7 @@ def lattice():
 def _plan(tier):
     n = len(lattice())
     t = TIERS[tier]
-    return n * 2 * t['draws'], t['chains']      # x2: 1 and 3 row groups
+    return n * t['draws'], t['chains']
 
 
 for _t in TIERS:
@@ -193,7 +202,11 @@ def generate(seed, idx, tier):
     if idx < nlat:
         cell = cells[idx % len(cells)]
         rest = idx // len(cells)
-        base.update(state=cell['state'], nrg=(1, 3)[rest % 2],
+        # every cell meets 1, 3 and 12 existing row groups (12: part numbers
+        # with two digits) and small and large new frames (large: more new
+        # bytes than the old footer is long) in turn
+        base.update(state=cell['state'], nrg=(1, 3, 12)[rest % 3],
+                    newrows=(12, 150, 12, 400)[rest % 4],
                     steps=[{'cell': cell['id']}])
         return base
     # chains
@@ -211,7 +224,8 @@ def generate(seed, idx, tier):
             steps.append({'cell': rng.choice(pool)['id']})
     if not any('cell' in s for s in steps):
         steps.append({'cell': rng.choice(pool)['id']})
-    base.update(state=state, nrg=rng.choice((1, 3)), steps=steps,
+    base.update(state=state, nrg=rng.choice((1, 3, 3, 12)), steps=steps,
+                newrows=rng.choice((12, 12, 150, 400)),
                 victim=victim, strict=strict)
     return base
 
@@ -318,11 +332,12 @@ def execute(case):
     fs = D.new_fs('posix')
     h = hashlib.blake2b(digest_size=8)
     with F.Knobs(case['knobs']), F.Poison():
-        base = good_frame(vtype, 9, rng, partitioned)
+        base = good_frame(vtype, 24 if case['nrg'] == 12 else 9, rng,
+                          partitioned)
         try:
             D.do_write(fs, path, base,
                        {'codec': case['codec'],
-                        'rgo': 3 if case['nrg'] == 3 else None,
+                        'rgo': {1: None, 3: 3, 12: 2}[case['nrg']],
                         'has_nulls': True if nullable else False},
                        scheme, parts)
             before = D.read_all(fs, path)
@@ -393,8 +408,13 @@ def execute(case):
                 break
             if outcome == 'returned':
                 break
-            res['keys'].append('%s|nrg%d|%s|%s|%s' % (
-                cell['id'], case['nrg'], case['knobs']['page'],
+            if case['nrg'] == 12:
+                bump(probes, 'refusal_on_dataset_with_two_digit_part_numbers')
+            if case.get('newrows', 12) > 100:
+                bump(probes, 'refusal_after_more_new_bytes_than_old_footer')
+            res['keys'].append('%s|nrg%d|n%d|%s|%s|%s' % (
+                cell['id'], case['nrg'], case.get('newrows', 12),
+                case['knobs']['page'],
                 'v2' if case['knobs']['v2'] else 'v1', case['codec']))
             h.update(('%d:%s:%s;' % (si, cell['id'],
                                      fs.state_digest())).encode())
@@ -418,7 +438,9 @@ def run_cell(fs, cell, path, scheme, parts, vtype, rng, case):
     mode, kind = cell['mode'], cell['kind']
     partitioned = bool(parts)
     col = cell.get('col', 0)
-    row = 1 if cell.get('rg') != 'rg-later' else 9
+    n = case.get('newrows', 12)
+    third = n // 3
+    row = 1 if cell.get('rg') != 'rg-later' else 2 * third + 1
     kw = {}
     try:
         if mode == 'read':
@@ -444,9 +466,9 @@ def run_cell(fs, cell, path, scheme, parts, vtype, rng, case):
                 pf.to_pandas(index='nope')
             return 'returned', None
         if mode == 'replace':
-            df = good_frame('str', 12, rng, partitioned, names=('w0', 'w1',
-                                                                'w2'))
-            wkw = {'row_group_offsets': 4}
+            df = good_frame('str', n, rng, partitioned, names=('w0', 'w1',
+                                                               'w2'))
+            wkw = {'row_group_offsets': third}
             if kind in REPLACE_DATA_KINDS:
                 if kind == 'none-in-required':
                     wkw['has_nulls'] = False
@@ -469,7 +491,7 @@ def run_cell(fs, cell, path, scheme, parts, vtype, rng, case):
                   **wkw)
             return 'returned', None
         # ---- append-like modes
-        df = good_frame(vtype, 12, rng, partitioned)
+        df = good_frame(vtype, n, rng, partitioned)
         comp = case['newcodec']
         app_scheme, app_parts = scheme, list(parts)
         if kind in DATA_KINDS:
@@ -491,23 +513,26 @@ def run_cell(fs, cell, path, scheme, parts, vtype, rng, case):
         elif kind == 'file-scheme-differs':
             app_scheme = 'hive' if scheme == 'simple' else 'simple'
         elif kind == 'partitioning-differs':
-            app_parts = (list(parts) + ['v0']) if cell['pos'] == \
-                'extra-column' else []
+            app_parts = (list(parts) + ['v0']) if cell['pos'].startswith(
+                'extra-column') else []
+        if cell.get('empty'):
+            df = df.iloc[:0]
         if mode == 'append':
             write(path, df, file_scheme=app_scheme, partition_on=app_parts,
                   open_with=fs.open, mkdirs=fs.mkdirs, append=True,
-                  row_group_offsets=4, compression=comp)
+                  row_group_offsets=third, compression=comp)
         elif mode == 'overwrite':
             write(path, df, file_scheme=app_scheme, partition_on=app_parts,
                   open_with=fs.open, mkdirs=fs.mkdirs, append='overwrite',
-                  row_group_offsets=4, compression=comp)
+                  row_group_offsets=third, compression=comp)
         elif mode == 'wrg-frame':
             pf = ParquetFile(path, fs=fs)
-            pf.write_row_groups(df, 4, compression=comp, open_with=fs.open,
+            pf.write_row_groups(df, third, compression=comp, open_with=fs.open,
                                 mkdirs=fs.mkdirs)
         elif mode == 'wrg-iter':
             pf = ParquetFile(path, fs=fs)
-            chunks = [df.iloc[0:4], df.iloc[4:8], df.iloc[8:12]]
+            chunks = [df.iloc[0:third], df.iloc[third:2 * third],
+                      df.iloc[2 * third:]]
             pf.write_row_groups(iter(chunks), None, compression=comp,
                                 open_with=fs.open, mkdirs=fs.mkdirs)
         return 'returned', None
